@@ -6,6 +6,7 @@ From CK Require Import Base.
 From CK Require Import Circ.
 From CK Require Import Integrate.
 From CK Require Import Normalised.
+From CK Require Import InputNorm.
 Close Scope Qc_scope. Close Scope Q_scope. Close Scope Z_scope. Open Scope nat_scope.
 
 (* if every input node integrates to one over its scope and every sum row sums to one, every node of the integrated circuit evaluates to the all-ones vector *)
@@ -93,3 +94,132 @@ Theorem C12_positive :
          o < length c -> k < nth o (units R D c) 0 -> pos (nth k (nth o (eval R rO radd rmul D c y) []) rO).
 Proof. exact monotone_pos. Qed.
 Print Assumptions C12_positive.
+
+(* binomial theorem over any commutative semiring (iterated addition for the coefficients) *)
+Theorem C12_binomial_theorem :
+  forall (R : Type) (rO rI : R) (radd rmul : R -> R -> R),
+         semi_ring_theory rO rI radd rmul eq ->
+         forall (n : nat) (a b : R),
+         tsum R rO radd (bterm R rO rI radd rmul n a b) (S n) = rpow R rI rmul (radd a b) n.
+Proof. exact binomial_theorem. Qed.
+Print Assumptions C12_binomial_theorem.
+
+(* the Binomial layer is normalised: sum_k C(n,k) p^k (1-p)^(n-k) = 1 in any commutative ring, for every p *)
+Theorem C12_binomial_normalised :
+  forall (R : Type) (rO rI : R) (radd rmul rsub : R -> R -> R) (ropp : R -> R),
+         ring_theory rO rI radd rmul rsub ropp eq ->
+         forall (n : nat) (p : R), tsum R rO radd (bterm R rO rI radd rmul n p (rsub rI p)) (S n) = rI.
+Proof. exact binomial_pmf_sum. Qed.
+Print Assumptions C12_binomial_normalised.
+
+(* ... hence a Binomial input node over the states 0..n integrates to one *)
+Theorem C12_binomial_input_node :
+  forall (R : Type) (rO rI : R) (radd rmul rsub : R -> R -> R) (ropp : R -> R),
+         ring_theory rO rI radd rmul rsub ropp eq ->
+         forall (D : Type) (enc : nat -> D) (idx : D -> nat),
+         (forall s : nat, idx (enc s) = s) ->
+         forall (dom : nat -> nat) (Z us : list nat) (v n : nat) (ps : vec R),
+         NoDup Z ->
+         In v Z ->
+         dom v = S n ->
+         norm_node R rO rI radd D (fInt R rO radd D enc dom) Z us
+           (NIn R D (bin_inp R rO rI radd rmul rsub D idx v n ps)).
+Proof. exact bin_inp_norm. Qed.
+Print Assumptions C12_binomial_input_node.
+
+(* a Categorical input node whose probabilities are a softmax integrates to one (any field, exp abstract with non-zero sums) *)
+Theorem C12_softmax_categorical_input_node :
+  forall (R : Type) (rO rI : R) (radd rmul rsub : R -> R -> R) (ropp : R -> R) 
+           (rdiv : R -> R -> R) (rinv : R -> R),
+         field_theory rO rI radd rmul rsub ropp rdiv rinv eq ->
+         forall (ex : R -> R) (D : Type) (enc : nat -> D) (idx : D -> nat),
+         (forall s : nat, idx (enc s) = s) ->
+         forall (dom : nat -> nat) (Z us : list nat) (v : nat) (Th : list (list R)),
+         NoDup Z ->
+         In v Z ->
+         (forall th : list R, In th Th -> length th <= dom v /\ vsum R rO radd (map ex th) <> rO) ->
+         norm_node R rO rI radd D (fInt R rO radd D enc dom) Z us
+           (NIn R D (cat_softmax R rO radd rdiv ex D idx v Th)).
+Proof. exact cat_softmax_norm. Qed.
+Print Assumptions C12_softmax_categorical_input_node.
+
+(* a Categorical node given by explicit probabilities is normalised exactly when every row sums to one *)
+Theorem C12_categorical_probabilities_iff :
+  forall (R : Type) (rO rI : R) (radd rmul : R -> R -> R),
+         semi_ring_theory rO rI radd rmul eq ->
+         forall (D : Type) (enc : nat -> D) (idx : D -> nat),
+         (forall s : nat, idx (enc s) = s) ->
+         forall (dom : nat -> nat) (Z us : list nat) (v : nat) (W : list (list R)),
+         NoDup Z ->
+         In v Z ->
+         (forall w : list R, In w W -> length w <= dom v) ->
+         norm_node R rO rI radd D (fInt R rO radd D enc dom) Z us (NIn R D (cat_probs R rO D idx v W)) <->
+         (forall w : list R, In w W -> vsum R rO radd w = rI).
+Proof. exact cat_probs_norm_iff. Qed.
+Print Assumptions C12_categorical_probabilities_iff.
+
+(* a Categorical node given by logits is unnormalised: its integral is the sum of the exponentials *)
+Theorem C12_categorical_logits_integral :
+  forall (R : Type) (rO : R) (radd : R -> R -> R) (D : Type) (enc : nat -> D) (idx : D -> nat),
+         (forall s : nat, idx (enc s) = s) ->
+         forall (dom : nat -> nat) (ex : R -> R) (v : nat) (L : list (list R)) (y : asg D),
+         (forall l : list R, In l L -> length l = dom v) ->
+         IntV R rO D (fInt R rO radd D enc dom) [v] (ifun R D (cat_logits R rO D idx ex v L)) (length L) y =
+         map (fun l : list R => vsum R rO radd (map ex l)) L.
+Proof. exact cat_logits_integral. Qed.
+Print Assumptions C12_categorical_logits_integral.
+
+(* circuits whose inputs are softmax-categorical / unit-row categorical / Binomial nodes and whose sum rows are unit-sum, softmax or mixing rows: every unit of every node of the integrated circuit is one — NO hypothesis left on the input layers *)
+Theorem C12_partition_one_discrete :
+  forall (R : Type) (rO rI : R) (radd rmul rsub : R -> R -> R) (ropp : R -> R) 
+           (rdiv : R -> R -> R) (rinv : R -> R),
+         field_theory rO rI radd rmul rsub ropp rdiv rinv eq ->
+         forall (ex : R -> R) (D : Type) (enc : nat -> D) (idx : D -> nat),
+         (forall s : nat, idx (enc s) = s) ->
+         forall (dom : nat -> nat) (Z : list nat) (c : circuit R D),
+         NoDup Z ->
+         ok R rO D c ->
+         (forall i : inp R D, In (NIn R D i) c -> norm_inp R rO rI radd rmul rsub rdiv ex D idx dom Z i) ->
+         (forall (W : list (vec R)) (ins : list nat),
+          In (NSum R D W ins) c ->
+          forall w : vec R,
+          In w W ->
+          unit_row R rO rI radd rdiv ex w /\ length w = sumu (fun j : nat => nth j (units R D c) 0) ins) ->
+         forall (y : asg D) (o : nat),
+         o < length c ->
+         nth o (eval R rO radd rmul D (integrate R rO D (fInt R rO radd D enc dom) Z c) y) [] =
+         ones R rI (nth o (units R D c) 0).
+Proof. exact normalised_partition_discrete. Qed.
+Print Assumptions C12_partition_one_discrete.
+
+(* ... the partition function (iterated sum over the states) of every unit is one *)
+Theorem C12_partition_function_one_discrete :
+  forall (R : Type) (rO rI : R) (radd rmul rsub : R -> R -> R) (ropp : R -> R) 
+           (rdiv : R -> R -> R) (rinv : R -> R),
+         field_theory rO rI radd rmul rsub ropp rdiv rinv eq ->
+         forall (ex : R -> R) (D : Type) (enc : nat -> D) (idx : D -> nat),
+         (forall s : nat, idx (enc s) = s) ->
+         forall (dom : nat -> nat) (Z : list nat) (c : circuit R D),
+         NoDup Z ->
+         ok R rO D c ->
+         (forall i : inp R D, In (NIn R D i) c -> norm_inp R rO rI radd rmul rsub rdiv ex D idx dom Z i) ->
+         (forall (W : list (vec R)) (ins : list nat),
+          In (NSum R D W ins) c ->
+          forall w : vec R,
+          In w W ->
+          unit_row R rO rI radd rdiv ex w /\ length w = sumu (fun j : nat => nth j (units R D c) 0) ins) ->
+         forall (y : asg D) (o k : nat),
+         o < length c ->
+         k < nth o (units R D c) 0 ->
+         IntL R D (fInt R rO radd D enc dom) (zs_of Z (nth o (scopes R D c) []))
+           (fun y' : asg D => nth k (nth o (eval R rO radd rmul D c y') []) rO) y = rI.
+Proof. exact partition_function_one. Qed.
+Print Assumptions C12_partition_function_one_discrete.
+
+(* the value computed by the EXECUTABLE Binomial layer (Exec.in_eval) sums to one over the states *)
+Theorem C12_executable_binomial :
+  forall (dom : nat -> nat) (v n : nat) (q : Scalar.C),
+         dom v = S n ->
+         Link.dInt dom v (fun d : Scalar.C => ExecLink.exec_bin n q (ExecLink.cidx d)) = Scalar.c1.
+Proof. exact ExecLink.exec_binomial_normalised. Qed.
+Print Assumptions C12_executable_binomial.
